@@ -1,6 +1,7 @@
 package main
 
 import (
+	"go/token"
 	"go/types"
 	"strings"
 
@@ -162,4 +163,79 @@ func ruleDiskWrapper(c *Ctx, id string) {
 	if n == 0 {
 		R.Pass(id, "disk decorators|none", "?", "no go-nfsd type wraps a disk.Disk", "nothing to check")
 	}
+}
+
+// ruleNullBlock: block number 0 means "no block" in inodes and index blocks,
+// and block 0 of the disk is the header of the write-ahead log.
+// AssertValidBlock lets 0 through (it is a legal pointer value), so a function
+// that may be handed 0 must not turn it into a block address.  The functions
+// that may be handed 0 say so themselves: they compare the number with 0.  In
+// every such function each use of the same number as a block address
+// (ZeroBlock, ReadBlock, Block2addr) must lie on the "not 0" side of such a
+// comparison.
+func ruleNullBlock(c *Ctx, id string) {
+	V, P, R := c.V, c.P, c.R
+	R.Rule(id, "the null block number never becomes a block address: in a function that compares a block number with 0, every ZeroBlock/ReadBlock/Block2addr of that number is dominated by the 'not 0' side of such a comparison (block 0 is the log header; a transaction that writes it destroys the log)", 1)
+	b2a := P.Func("super.(*FsSuper).Block2addr")
+	isAddrUse := funcIs(V.ZeroBlock, V.ReadBlock, b2a)
+	n := 0
+	for _, fn := range P.RepoFuncs("alloctxn", "inode", "dir", "nfs", "fstxn", "shrinker") {
+		if fn.Blocks == nil {
+			continue
+		}
+		// the numbers this function compares with 0
+		tested := map[ssa.Value]bool{}
+		for _, br := range branches(fn) {
+			cd := br.Cond
+			if cd.Op != token.EQL && cd.Op != token.NEQ {
+				continue
+			}
+			for _, pr := range [][2]ssa.Value{{cd.X, cd.Y}, {cd.Y, cd.X}} {
+				if pr[0] == nil || pr[1] == nil {
+					continue
+				}
+				if k, ok := constInt(pr[1]); ok && k == 0 && isBnum(pr[0].Type()) {
+					tested[stripConv(pr[0])] = true
+				}
+			}
+		}
+		if len(tested) == 0 {
+			continue
+		}
+		for _, call := range P.CallsIn(fn, isAddrUse) {
+			arg := stripConv(argN(call, 0))
+			if !tested[arg] {
+				continue
+			}
+			n++
+			R.Analysed[FuncName(fn)] = true
+			g := guardedBy(fn, call.Block(), func(cd Cond) (bool, bool) {
+				if cd.Op != token.EQL && cd.Op != token.NEQ {
+					return false, false
+				}
+				for _, pr := range [][2]ssa.Value{{cd.X, cd.Y}, {cd.Y, cd.X}} {
+					if pr[0] == nil || pr[1] == nil {
+						continue
+					}
+					if k, ok := constInt(pr[1]); ok && k == 0 && stripConv(pr[0]) == arg {
+						return true, cd.Op == token.NEQ
+					}
+				}
+				return false, false
+			})
+			R.Check(g, id, FuncName(fn)+"|"+staticCallee(call).Name()+" only of a non-null block", P.Pos(call.Pos()), "the block number is known to be non-zero where it is used as an address", "dominated by the != 0 side", "the function expects the number to be 0 sometimes (it tests for it) but addresses the block before/without that test: freeing a hole zeroes block 0, the header of the write-ahead log, inside a committed transaction - recovery then sees an empty or corrupt log")
+		}
+	}
+	if n == 0 {
+		R.Fail(id, "alloctxn.FreeBlock|null block guarded", "", "FreeBlock tests its argument for 0 before it zeroes the block", "no function was found that both tests a block number for 0 and addresses it: the rule has lost its instance")
+	}
+}
+
+func isBnum(t types.Type) bool {
+	n, ok := types.Unalias(t).(*types.Named)
+	if ok && n.Obj().Name() == "Bnum" {
+		return true
+	}
+	b, ok := t.Underlying().(*types.Basic)
+	return ok && b.Kind() == types.Uint64
 }
